@@ -235,6 +235,35 @@ def observe (c : Cfg) (s : State) : Obs :=
     capacity := (s.capacity : Rat) / (c.maxCap : Rat)
     mask := (List.range s.visited.length).map (fun a => decide (legal s a)) }
 
+/-! ### L2: one step of the game as the documentation states it (C09)
+
+docs/environments/cvrp.md and the class docstring: an action is the index of the next node to visit, 0 is the depot; the
+vehicle moves there, the node is appended to the route; a customer is marked visited and its demand is taken from the
+capacity, the depot refills the vehicle (and can be visited again later).  "Episode termination: if no action can be
+performed, i.e. all nodes have been visited; if an invalid action is taken."  Reward: dense = "the negative distance
+between the current node and the chosen next node"; sparse = "the negative tour length at the end of the episode"; "a large
+negative penalty of −2·num_nodes·√2 if the action is invalid". -/
+
+/-- the vehicle drives to node `a` -/
+def visitL2 (c : Cfg) (s : State) (a : Nat) : State :=
+  { s with position := a
+           capacity := if a = DEPOT then c.maxCap else s.capacity - s.demands.getD a 0
+           visited := List.set (List.set s.visited DEPOT false) a true
+           trajectory := List.set s.trajectory s.numVisits a
+           numVisits := s.numVisits + 1 }
+
+/-- nothing is left to do: every customer is on the route and the vehicle is back at the depot (recomputed from the
+route, not from the visited mask) -/
+def complete (s : State) : Bool :=
+  decide (s.position = DEPOT) && (List.range s.visited.length).all (fun x => x == DEPOT || decide (x ∈ visits s))
+
+def stepL2 (c : Cfg) (D : Dist) (s : State) (a : Nat) : State × TimeStep Obs :=
+  if legal s a then
+    let s' := visitL2 c s a
+    let r : Rat := if c.dense then -(dist D s.position a) else if complete s' then -(tourLength D s') else 0
+    (s', if complete s' then termination [r] (observe c s') else transition [r] (observe c s'))
+  else (s, termination [-((2 * numNodes s : Nat) : Rat) * c.sqrt2] (observe c s))
+
 /-! ### instance certificates (C10) -/
 
 /-- what the generator advertises about a fresh instance -/
